@@ -116,6 +116,14 @@ MUTANTS = [
     M("c15-create-any-group", "C15", "break", [(QBITS, "            and group_size == 128\n", "")], "C15.R7"),
     M("c15-tocopy-no-convert", "C15", "break", [(QBOPS, "    if type(t) != QBitsTensor and t.device.type != device.type:\n        # Before moving to another device type, convert back to a QBitsTensor\n        t = t.qbits_tensor()\n", "")], "C15.R7"),
     M("c15-save-no-convert", "C15", "break", [(QBITS, "            self.qbits_tensor().save_to_state_dict(destination, prefix, keep_vars)", "            super().save_to_state_dict(destination, prefix, keep_vars)")], "C15.R7"),
+    M("c15-wrap-unpack-swapped", "C15", "break", [(AWQP, "        if self._packing == AWQPacking.V1:\n            return unpack(self._data, self._reorder)", "        if self._packing != AWQPacking.V1:\n            return unpack(self._data, self._reorder)")], "C15.R8"),
+    M("c15-wrap-unpack-reorder-dropped", "C15", "break", [(AWQP, "            return unpack(self._data, self._reorder)", "            return unpack(self._data)")], "C15.R8"),
+    M("c15-wrap-pack-reorder-dropped", "C15", "break", [(AWQP, "            data = pack(t, reorder=reorder)", "            data = pack(t)")], "C15.R8"),
+    M("c15-wrap-pack-records-default", "C15", "break", [(AWQP, "        return AWQPackedTensor(data, packing, reorder, t.size(), t.stride())\n\n    def unpack", "        return AWQPackedTensor(data, packing, False, t.size(), t.stride())\n\n    def unpack")], "C15.R8"),
+    M("c15-wrap-unpack-transposed", "C15", "break", [(AWQP, "        return unpack_v2(self._data)", "        return unpack_v2(self._data).t()")], "C15.R8"),
+    M("c15-wrap-detach-flags", "C15", "break", [(AWQP, "            data = op(t._data)\n            return AWQPackedTensor(data, t._packing, t._reorder, t.size(), t.stride())", "            data = op(t._data)\n            return AWQPackedTensor(data, t._packing, False, t.size(), t.stride())")], "C15.R8"),
+    M("c15-wrap-init-swapped", "C15", "break", [(AWQP, "        self._reorder = reorder", "        self._reorder = requires_grad")], "C15.R8"),
+    M("c15-refactor-unpack-else", "C15", "refactor", [(AWQP, "            return unpack(self._data, self._reorder)\n        return unpack_v2(self._data)", "            out = unpack(self._data, reorder=self._reorder)\n        else:\n            out = unpack_v2(self._data)\n        return out.contiguous()")]),
     M("c15-refactor-split-permutes", "C15", "refactor", [(AWQP, "    packed = unpacked.reshape(N, K // 32, 4, 4, 2).permute(0, 1, 3, 2, 4)\n", "    packed = unpacked.reshape(N, K // 32, 4, 4, 2)\n    packed = packed.permute(0, 1, 3, 2, 4)\n")]),
     M("c15-refactor-merge-permutes", "C15", "refactor", [(AWQP, "    packed = unpacked.reshape(N, K // 32, 4, 4, 2).permute(0, 1, 3, 2, 4)\n\n    # Reorder each 8 weights for fast dequantization\n    # From: \"Who Says Elephants Can’t Run: Bringing Large Scale MoE Models into Cloud Scale Production\"\n    # https://arxiv.org/pdf/2211.10017\n    # [0, 1, 2, 3, 4, 5, 6, 7] => [0, 2, 4, 6, 1, 3, 5, 7]\n    packed = packed.permute(0, 1, 2, 4, 3)\n", "    packed = unpacked.reshape(N, K // 32, 4, 4, 2).permute(0, 1, 3, 4, 2)\n")]),
     # ---------------- C16
